@@ -96,7 +96,7 @@ func (c *Check) Anchor(rule, role string, found bool) bool {
 	return found
 }
 
-func (c *Check) Note(s string)   { c.Notes = append(c.Notes, s) }
+func (c *Check) Note(s string)    { c.Notes = append(c.Notes, s) }
 func (c *Check) Assumes(s string) { c.Assume = append(c.Assume, s) }
 
 func loadKnown(verifDir string) ([]KnownFinding, error) {
